@@ -8,6 +8,9 @@
 import VM.Proofs.DefaultsProof
 import VM.Impl.Pipeline
 import VM.Generated.SpecFacts
+import VM.Impl.SpecModel
+import VM.Proofs.NoPanic
+import VM.Proofs.SimpleProof
 namespace VM.C07
 open VM Sw
 
@@ -65,7 +68,8 @@ theorem C07_witness_dotted_name :
     the nil result the walker returns for a "visited" path is never dereferenced. -/
 theorem C07_value_stages_no_panic (c : DCfg) (J : Judges) (w : Which) (O : Oracles) (hJ : JOk J) (v : View) :
     (valueStage c J w O v).panicked = false :=
-  valueStage_ok c J w O hJ v
+  valueStage_ok c J w O (fun _ => True) kidsClosed_true hJ v
+    ⟨fun _ _ => ⟨fun _ _ _ _ => trivial, fun _ _ _ _ _ _ => trivial⟩, fun _ _ => trivial⟩
 
 theorem mergeAll_ok (r : Res) (os : List Res) (hr : Ok r) (h : ∀ o ∈ os, Ok o) : Ok (mergeAll r os) := by
   induction os generalizing r with
@@ -93,5 +97,134 @@ theorem C07_pipeline_no_panic (cont : Bool) (s : Stages)
         · exact e3
         · exact e4
   simpa [specValidate, Res.mergeAsWarningsOne, Ok] using this
+
+/-! ### the whole of `Validate`, with the models of the validators as judges -/
+
+theorem simpleRes_ok (name : String) (r : Bool × Bool) (h : r.2 = false) : Ok (simpleRes name r) := by
+  unfold simpleRes Ok
+  simp only [h, Bool.false_eq_true, ↓reduceIte]
+  split <;> rfl
+
+/-- the judges of the model (validator tree, parameter / header / items chains, code as it is) return normally on every
+    schema all of whose references are known to a closed definitions table -/
+theorem modelJudges_ok (O : Oracles) (defs : String → Option Schema) (hdefs : DefsClosed defs) :
+    JOkOn (fun s => allRefsKnown (fun m => (defs m).isSome) s = true) (modelJudges O defs) where
+  schema := fun s p v hs =>
+    validateF_np Impl.Cfg.asIs rfl swaggerOpts O defs hdefs modelFuel s (allRefsKnown_refsKnown _ s hs) p v
+  param := fun p v => simpleRes_ok _ _ (Simple.validate_np O _ _ _)
+  header := fun h v => simpleRes_ok _ _ (Simple.validate_np O _ _ _)
+  items := fun path _ rootFmt chain v => by
+    show Ok (match chainToSSchema chain, toGo v with
+      | _, .nil => {}
+      | some ss, gv => simpleRes (path ++ ".0") (Simple.validateAux O false (ss.depth + 1) .items rootFmt ss gv)
+      | none, _ => {})
+    split
+    · rfl
+    · exact simpleRes_ok _ _ (Simple.validateAux_np O _ _ _ _ _)
+    · rfl
+
+theorem kidsClosed_allRefsKnown (known : String → Bool) : KidsClosed (fun s => allRefsKnown known s = true) := by
+  intro b itemsS itemsT addItemsS props patProps addPropsS deps allOf anyOf oneOf nt h
+  rw [allRefsKnown_mk] at h
+  simp only [Bool.and_eq_true] at h
+  obtain ⟨⟨⟨⟨⟨⟨⟨⟨⟨⟨⟨_, h1⟩, h2⟩, h3⟩, h4⟩, h5⟩, h6⟩, _⟩, h8⟩, _⟩, _⟩, _⟩ := h
+  refine ⟨?_, allRefsKnownL_mem known itemsT h2, ?_, allRefsKnownM_mem known props h4, allRefsKnownM_mem known patProps h5, ?_,
+    allRefsKnownL_mem known allOf h8⟩
+  · intro s hs; subst hs; exact h1
+  · intro s hs; subst hs; exact h3
+  · intro s hs; subst hs; exact h6
+
+theorem alookup_mem' {α : Type} (k : String) (l : List (String × α)) (v : α) (h : alookup k l = some v) : (k, v) ∈ l := by
+  induction l with
+  | nil => simp [alookup] at h
+  | cons p ps ih =>
+    obtain ⟨k', v'⟩ := p
+    simp only [alookup] at h
+    split at h
+    · rename_i hk; cases h; subst hk; exact List.mem_cons_self
+    · exact List.mem_cons_of_mem _ (ih h)
+
+theorem swagger_table_refs_known :
+    Generated.swaggerTable.all (fun p => refsKnown (fun n => (Generated.swaggerDefs n).isSome) p.2) = true := by decide
+theorem swagger_root_refs_known : refsKnown (fun n => (Generated.swaggerDefs n).isSome) Generated.swaggerRoot = true := by decide
+theorem swagger_defs_closed : DefsClosed Generated.swaggerDefs := by
+  intro name t h
+  exact (List.all_eq_true.mp swagger_table_refs_known) (name, t) (alookup_mem' name Generated.swaggerTable t h)
+
+/-- **The model of the whole of `Validate` never panics**: the Swagger schema pass over any raw document, the reference check,
+    every rule loop, the default and example stages judging with the models of the schema, parameter, header and items
+    validators (code as it is), merged by the pipeline in either continue-on-errors mode — for every document view whose
+    definitions table is closed and whose parameter, response and definition schemas only hold references it knows
+    (what the reference stage establishes before the value stages run), every regexp engine and format registry. -/
+theorem C07_whole_model_no_panic (cont : Bool) (O : Oracles) (raw : JVal) (v0 v : View)
+    (hdefs : DefsClosed (defsLookup v0))
+    (hv : ViewP (fun s => allRefsKnown (fun m => (defsLookup v0 m).isSome) s = true) v) :
+    (specModel cont O raw v0 v).1.panicked = false := by
+  unfold specModel
+  have hJ := modelJudges_ok O (defsLookup v0) hdefs
+  have hcl := kidsClosed_allRefsKnown (fun m => (defsLookup v0 m).isSome)
+  apply C07_pipeline_no_panic
+  · exact validateF_np Impl.Cfg.asIs rfl swaggerOpts O Generated.swaggerDefs swagger_defs_closed modelFuel
+      Generated.swaggerRoot swagger_root_refs_known "" raw
+  · rfl
+  · intro o ho
+    simp only [Stages.middle, modelStages, List.mem_cons, List.not_mem_nil, or_false] at ho
+    rcases ho with rfl | rfl | rfl | rfl | rfl <;> rfl
+  · intro o ho
+    simp only [Stages.late, modelStages, List.mem_cons, List.not_mem_nil, or_false] at ho
+    rcases ho with rfl | rfl | rfl | rfl
+    · exact valueStage_ok _ _ _ O _ hcl hJ v hv
+    · exact valueStage_ok _ _ _ O _ hcl hJ v hv
+    · rfl
+    · rfl
+
+/-! the hypotheses as executable checks, and a view that meets them -/
+
+def optAll (known : String → Bool) : Option Schema → Bool
+  | some s => allRefsKnown known s
+  | none => true
+
+/-- executable form of the hypotheses of `C07_whole_model_no_panic` -/
+def viewClosed (v0 v : View) : Bool :=
+  let known := fun m => (defsLookup v0 m).isSome
+  (v0.defs.map fun (n, s) => (defRef n, s)).all (fun p => refsKnown known p.2)
+  && v.ops.all (fun o => o.params.all (fun p => optAll known p.schema)
+      && (match o.responses with | some rs => rs.all (fun r => optAll known r.schema) | none => true))
+  && v.defs.all (fun d => allRefsKnown known d.2)
+
+theorem viewClosed_spec (v0 v : View) (h : viewClosed v0 v = true) :
+    DefsClosed (defsLookup v0) ∧ ViewP (fun s => allRefsKnown (fun m => (defsLookup v0 m).isSome) s = true) v := by
+  unfold viewClosed at h
+  simp only [Bool.and_eq_true, List.all_eq_true] at h
+  obtain ⟨⟨h1, h2⟩, h3⟩ := h
+  refine ⟨?_, ⟨?_, fun d hd => h3 d hd⟩⟩
+  · intro name t ht
+    exact h1 (name, t) (alookup_mem' name _ t ht)
+  · intro o ho
+    have := h2 o ho
+    refine ⟨?_, ?_⟩
+    · intro p hp s hs
+      have := this.1 p hp
+      simpa [optAll, hs] using this
+    · intro rs hrs r hr s hs
+      have h' := this.2
+      rw [hrs] at h'
+      have := List.all_eq_true.mp h' r hr
+      simpa [optAll, hs] using this
+
+/-- the theorem with its hypotheses in executable form -/
+theorem C07_whole_model_no_panic_exec (cont : Bool) (O : Oracles) (raw : JVal) (v0 v : View) (h : viewClosed v0 v = true) :
+    (specModel cont O raw v0 v).1.panicked = false :=
+  C07_whole_model_no_panic cont O raw v0 v (viewClosed_spec v0 v h).1 (viewClosed_spec v0 v h).2
+
+def sRefTo (n : String) : Schema := .mk { ref := defRef n } none [] none [] [] none [] [] [] [] none
+def vDemo : View :=
+  { pathKeys := ["/a"],
+    ops := [{ method := "POST", path := "/a", id := "op",
+              opParams := [{ name := "body", loc := "body",
+                             schema := some (.mk { types := ["object"] } none [] none [("p", sRefTo "D")] [] none [] [] [] [] none) }],
+              responses := some [{ code := "200", schema := some (sRefTo "D") }] }],
+    defs := [("D", .mk { types := ["object"], default := some (.num 1) } none [] none [("q", sRefTo "D")] [] none [] [] [] [] none)] }
+example : viewClosed vDemo vDemo = true := by decide
 
 end VM.C07
